@@ -51,11 +51,14 @@ Definition parse_atomic (s : bytes) : option atomic :=
        | None => None
        end end end.
 
-(* split "T[dim]" at the last '[' when the string ends in ']' *)
+(* split "T[dim]" at the last '[' when the string ends in ']' (the result is checked) *)
 Definition split_array (s : bytes) : option (bytes * bytes) :=
   if ends_with x5d s then
     match last_index_byte x5b s with
-    | Some i => Some (firstn i s, firstn (length s - i - 2) (skipn (S i) s))
+    | Some i =>
+        let t := firstn i s in
+        let dim := firstn (length s - i - 2) (skipn (S i) s) in
+        if bytes_eqb s (t ++ x5b :: dim ++ [x5d]) then Some (t, dim) else None
     | None => None
     end
   else None.
@@ -185,10 +188,23 @@ Fixpoint nodupb (l : list bytes) : bool :=
 Definition wf_types_b (sts : types) : bool :=
   nodupb (keys sts) &&
   forallb (fun nd : bytes * structdef =>
-             wf_name (fst nd) && negb (match parse_atomic (fst nd) with Some _ => true | None => false end)
+             wf_name (fst nd) && forallb (fun a => negb (bytes_eqb (fst nd) (atomic_name a))) wf_atomics
              && forallb (fun m => wf_mty sts (sm_ty m)) (snd nd)) sts.
 
 Definition wf_doc_b (d : doc) : bool :=
   wf_types_b (d_types d) && bmem domain_name (keys (d_types d)) && bmem (d_primary d) (keys (d_types d))
   && well_typed (d_types d) (Struct domain_name) (d_domain d)
   && well_typed (d_types d) (Struct (d_primary d)) (d_message d).
+
+(* fixed array dimensions fit Go's int *)
+Fixpoint dims_fit_b (t : mty) : bool :=
+  match t with
+  | Arr t' (Some k) => (Z.of_N k <=? 9223372036854775807)%Z && dims_fit_b t'
+  | Arr t' None => dims_fit_b t'
+  | _ => true
+  end.
+Definition types_dims_fit_b (sts : types) : bool :=
+  forallb (fun nd : bytes * structdef => forallb (fun m => dims_fit_b (sm_ty m)) (snd nd)) sts.
+
+(* the [well_formed] of C04_digest_is_spec *)
+Definition well_formed_b (d : doc) : bool := wf_doc_b d && types_dims_fit_b (d_types d).
